@@ -182,6 +182,7 @@ let () =
   if Array.length Sys.argv > 1 && Sys.argv.(1) = "serve" then serve ()
   else run_driver (fun toks impl ->
     let c = parse_case toks in
+    if not (scenario_buildable c.sc) then ("unbuildable", "na") else
     let m = (try model_line ~with_flags:true c with Miss s -> "oracle-miss " ^ s | Failure e -> "driver-failure:" ^ e) in
     let v = (match impl with [] -> "na" | _ -> (try verdict_of c impl with Failure _ -> "fails:-")) in
     (m, v))
